@@ -7,6 +7,7 @@ import (
 	"path/filepath"
 	"sort"
 	"strconv"
+	"strings"
 
 	"github.com/akrennmair/updog"
 	"github.com/akrennmair/updog/zzverif/ix"
@@ -25,6 +26,8 @@ type c18Params struct {
 	K      int `json:"k"`
 	R      int `json:"r"`
 	Pre    int `json:"pre"` // rows inserted before the concurrent phase
+	// Separate: every thread has its OWN writer (nothing may be shared between two writers either)
+	Separate bool `json:"separate,omitempty"`
 }
 
 type rowAdder interface {
@@ -90,8 +93,11 @@ func c18PreRow(i int) model.Row {
 	return model.Row{"id": "pre" + strconv.Itoa(i), "c": "shared", "d": "pre"}
 }
 
+// the unique tag is longer than any fixed-size key buffer somebody might introduce and differs only at its end
+var c18LongTag = strings.Repeat("tag-", 20)
+
 func c18Row(t, j int) model.Row {
-	return model.Row{"id": fmt.Sprintf("t%d_%d", t, j), "c": "shared", "d": "thread" + strconv.Itoa(t)}
+	return model.Row{"id": fmt.Sprintf("%st%d_%d", c18LongTag, t, j), "c": "shared", "d": "thread" + strconv.Itoa(t)}
 }
 
 type c18Obs struct {
@@ -100,6 +106,9 @@ type c18Obs struct {
 }
 
 func c18Scenario(ctx *rt.Ctx, p c18Params, lastOutcome *string) vsched.Scenario {
+	if p.Separate {
+		return c18Separate(ctx, p, lastOutcome)
+	}
 	return func() ([]func(), func(*vsched.Result) string) {
 		w := newC18World(ctx.Scratch, p)
 		obs := &c18Obs{ids: make([][]uint32, p.K), errs: make([]error, p.K)}
@@ -123,6 +132,83 @@ func c18Scenario(ctx *rt.Ctx, p c18Params, lastOutcome *string) vsched.Scenario 
 		}
 		return bodies, check
 	}
+}
+
+// c18Separate: k threads, each adding r rows to its own writer at the same time; afterwards every writer is checked
+// on its own (ids 0..r-1, flushed index equals the sequential model of its rows).
+func c18Separate(ctx *rt.Ctx, p c18Params, lastOutcome *string) vsched.Scenario {
+	return func() ([]func(), func(*vsched.Result) string) {
+		ws := make([]*c18World, p.K)
+		obs := make([]*c18Obs, p.K)
+		var bodies []func()
+		for t := 0; t < p.K; t++ {
+			t := t
+			ws[t] = newC18World(ctx.Scratch, c18Params{Writer: p.Writer})
+			obs[t] = &c18Obs{ids: make([][]uint32, 1), errs: make([]error, 1)}
+			bodies = append(bodies, func() {
+				for j := 0; j < p.R; j++ {
+					id, err := ws[t].w.AddRow(c18Row(t, j))
+					if err != nil {
+						obs[t].errs[0] = err
+						return
+					}
+					obs[t].ids[0] = append(obs[t].ids[0], id)
+				}
+			})
+		}
+		check := func(r *vsched.Result) string {
+			defer func() {
+				for _, w := range ws {
+					w.cleanup()
+				}
+			}()
+			for t := 0; t < p.K; t++ {
+				// re-label: the single thread of writer t is "thread t" of c18Row
+				var out string
+				one := &c18Obs{ids: make([][]uint32, t+1), errs: make([]error, t+1)}
+				one.ids[t], one.errs[t] = obs[t].ids[0], obs[t].errs[0]
+				if m := c18CheckOne(ws[t], t, p.R, one, &out); m != "" {
+					return fmt.Sprintf("writer of thread %d: %s", t, m)
+				}
+			}
+			*lastOutcome = "separate"
+			return ""
+		}
+		return bodies, check
+	}
+}
+
+// c18CheckOne checks a writer that received the rows of thread t only.
+func c18CheckOne(w *c18World, t, r int, obs *c18Obs, outcome *string) string {
+	if obs.errs[t] != nil {
+		return fmt.Sprintf("AddRow returned an error: %v", obs.errs[t])
+	}
+	if len(obs.ids[t]) != r {
+		return fmt.Sprintf("%d of %d AddRow calls completed", len(obs.ids[t]), r)
+	}
+	rows := make([]model.Row, r)
+	for j, id := range obs.ids[t] {
+		if int(id) != j {
+			return fmt.Sprintf("AddRow #%d returned id %d", j, id)
+		}
+		rows[j] = c18Row(t, j)
+	}
+	if err := w.w.Flush(); err != nil {
+		return fmt.Sprintf("Flush failed: %v", err)
+	}
+	for _, d := range w.dbs {
+		d.Close()
+	}
+	w.dbs = nil
+	idx, err := ix.Open(w.path, false, nil)
+	if err != nil {
+		return fmt.Sprintf("cannot open the flushed index: %v", err)
+	}
+	defer idx.Close()
+	if probe, msg := c05Probes(model.FromRows(rows), idx, true, nil); msg != "" {
+		return fmt.Sprintf("flushed index differs from the rows added to this writer: %s: %s", probe, msg)
+	}
+	return ""
 }
 
 func c18Check(w *c18World, p c18Params, obs *c18Obs, outcome *string) string {
@@ -234,6 +320,11 @@ func c18Run(ctx *rt.Ctx) []*rt.Violation {
 			b, _ := json.Marshal(e3Job{Scenario: "addrow", Params: pb, Bound: -1})
 			jobs = append(jobs, rt.Job{Name: fmt.Sprintf("addrow-%s-%dx%d+%d", w, c.k, c.r, c.pre), NShards: 1, Args: b})
 		}
+	}
+	for _, w := range []ix.Writer{ix.MemFile, ix.Big} {
+		pb, _ := json.Marshal(c18Params{Writer: int(w), K: 2, R: 2, Separate: true})
+		b, _ := json.Marshal(e3Job{Scenario: "addrow-separate-writers", Params: pb, Bound: -1})
+		jobs = append(jobs, rt.Job{Name: fmt.Sprintf("separate-%s", w), NShards: 1, Args: b})
 	}
 	outs := rt.RunJobs(ctx, jobs, rt.SpawnOpt{Race: true})
 	vs := rt.Collect(ctx, outs, nil)
